@@ -232,11 +232,15 @@ func reportZeroWidth(zc zeroWidthCase, ep entryPoint, dl delivery, clause string
 		}
 	}
 	if m < 0 {
-		run.EngineError("zero-width: reduction of %s %s lost the failure", sigName(zc.d), zc.d)
+		unstable(fmt.Sprintf("codec/%s/%s/zero-width", ep.name, clause), ep, dl, clause, sigName(zc.d), zc.d.String(), refmodel.Encode(zc.d))
 		return
 	}
 	min := zc.build(refill(zc.c, key, elem, m))
 	mclause, det := ep.eval(min, dl)
+	if mclause == "" {
+		unstable(fmt.Sprintf("codec/%s/%s/zero-width", ep.name, clause), ep, dl, clause, sigName(zc.d), zc.d.String(), refmodel.Encode(zc.d))
+		return
+	}
 	fp := fmt.Sprintf("codec/%s/%s/zero-width/%s-of-%s/min-count=bytes-after%+d", ep.name, mclause, containerName(zc.c.T.Kind), name, m-zc.after)
 	if len(ep.dls) > 1 {
 		if c, _ := ep.eval(min, delivery{mode: enum.EOFSeparate}); c == "" {
